@@ -233,9 +233,9 @@ func (c *solverCase) variants(over actOverride, wscale float64) []variant {
 		}
 		return net, nil
 	}, false})
-	if len(c.Net.Outputs) > 1 {
-		vs = append(vs, variant{"direct, neurons of the all-nodes list reversed", func() (*network.Network, error) { return c.Net.directShuffled(over, wscale), nil }, false})
-	}
+	// the listing order of the neurons is not part of the network: with the neurons reversed every neuron is listed BEFORE the
+	// neurons it reads from (the order Genesis yields after repeated splits of an entering link)
+	vs = append(vs, variant{"direct, neurons of the all-nodes list reversed", func() (*network.Network, error) { return c.Net.directShuffled(over, wscale), nil }, false})
 	if c.Net.hasBias() {
 		vs = append(vs, variant{"direct+bias-passed", func() (*network.Network, error) { return c.Net.direct(over, wscale), nil }, true})
 	}
